@@ -125,9 +125,16 @@ def r2_table_data(run, w):
     raise AnalysisError("get_table_data: row loop not found")
   lp = loops[0]
   rowvar = text(lp.target.elts[1]) if isinstance(lp.target, ast.Tuple) else text(lp.target)
-  # converters sized by num_columns
-  conv_defs = _defs(fn.node, "converters")
-  ok = any(isinstance(v, ast.Call) and len(v.args) == 2 and text(v.args[1]) == ncols
+  # roles, not spellings: `converters` is the local bound to _guess_basic_types(..., num_columns);
+  # `col_converters` the local bound to one ColumnConverter per element of it
+  cv_names = [t.id for s in fn.node.body for n in walk_no_nested(s) if isinstance(n, ast.Assign)
+              and isinstance(n.value, ast.Call) and endswith(fn.name(n.value) or "", "_guess_basic_types")
+              for t in n.targets if isinstance(t, ast.Name)]
+  if len(cv_names) != 1:
+    raise AnalysisError("get_table_data: the local holding _guess_basic_types(...) not found")
+  CV = cv_names[0]
+  conv_defs = _defs(fn.node, CV)
+  ok = all(isinstance(v, ast.Call) and len(v.args) == 2 and text(v.args[1]) == ncols
            for v in conv_defs)
   g = w.fn("parse_data._guess_basic_types")
   gp = g.fi.params()
@@ -136,11 +143,16 @@ def r2_table_data(run, w):
                   text(n.generators[0].iter.args[0]) == gp[1] for n in ast.walk(g.node))
   run.ob(R2, fn.qualname, "converters = _guess_basic_types(..., %s)" % ncols,
          "one converter per requested column", ok, fi=fn.fi)
-  cc = _defs(fn.node, "col_converters")
-  ok = any(isinstance(v, ast.ListComp) and text(v.generators[0].iter) == "converters"
-           for v in cc)
+  cc_names = [t.id for s in fn.node.body for n in walk_no_nested(s) if isinstance(n, ast.Assign)
+              and isinstance(n.value, ast.ListComp) and len(n.value.generators) == 1 and
+              not n.value.generators[0].ifs and text(n.value.generators[0].iter) == CV and
+              isinstance(n.value.elt, ast.Call) and
+              endswith(fn.name(n.value.elt) or "", "ColumnConverter")
+              for t in n.targets if isinstance(t, ast.Name)]
+  ok = len(cc_names) == 1 and len(_defs(fn.node, cc_names[0])) == 1
   run.ob(R2, fn.qualname, "col_converters = [ColumnConverter(c) for c in converters]",
          "one column converter per converter", ok, fi=fn.fi)
+  CC = cc_names[0] if cc_names else "col_converters"
   # padding: row.extend([""] * (len(converters) - len(row))) before the zip
   cfg = fn.cfg
   pads = set()
@@ -150,7 +162,7 @@ def r2_table_data(run, w):
         pads.add(n.id)
   feeds = [(n, s) for n in cfg.nodes if n.kind == "for" and isinstance(n.stmt.iter, ast.Call) and
            dotted(n.stmt.iter.func) == "zip" and
-           [text(a) for a in n.stmt.iter.args] == [rowvar, "col_converters"]
+           [text(a) for a in n.stmt.iter.args] == [rowvar, CC]
            for s in [n.stmt]]
   ok = len(feeds) == 1 and any(fn.name(c) and fn.name(c).endswith(".convert_and_add")
                                for c in calls_in(feeds[0][1].body))
@@ -158,6 +170,7 @@ def r2_table_data(run, w):
          "every cell of the (padded) row reaches its column's converter", ok, fi=fn.fi)
   # the pad amount is len(converters) - len(row), applied when positive, before feeding
   pad_ok = False
+  du = DefUse(fn)
   for s in ast.walk(lp):
     if isinstance(s, ast.If) and any(fn.name(c) == rowvar + ".extend" for c in calls_in(s.body)):
       t = s.test
@@ -165,13 +178,16 @@ def r2_table_data(run, w):
       if isinstance(t, ast.Compare) and isinstance(t.ops[0], ast.Gt) and \
           isinstance(t.comparators[0], ast.Constant) and t.comparators[0].value == 0:
         mv = text(t.left)
-      for v in _defs(fn.node, mv) if mv else []:
-        if text(v).replace(" ", "") in ("len(converters)-len(%s)" % rowvar,
-                                        "len(col_converters)-len(%s)" % rowvar):
+      if mv is not None:
+        # the tested amount, with named intermediate values inlined, is len(converters) - len(row)
+        amount = text(du.inline(t.left, stop=(CV, CC, rowvar)))
+        if amount.replace(" ", "") in ("len(%s)-len(%s)" % (CV, rowvar),
+                                       "len(%s)-len(%s)" % (CC, rowvar)):
           ext = [c for c in calls_in(s.body) if fn.name(c) == rowvar + ".extend"][0]
           a = ext.args[0]
+          stop = (CV, CC, rowvar)
           pad_ok = isinstance(a, ast.BinOp) and isinstance(a.op, ast.Mult) and \
-              mv in (text(a.left), text(a.right))
+              amount in (text(du.inline(a.left, stop=stop)), text(du.inline(a.right, stop=stop)))
   feed_ids = {n.id for (n, s) in feeds}
   pad_tests = {n.id for n in cfg.nodes if n.kind == "if" and
                any(fn.name(c) == rowvar + ".extend" for c in calls_in(n.stmt.body))}
